@@ -3,7 +3,7 @@ from vlib import oracles, reharness
 from vlib.harness import Harness, register
 from harnesses.c01_documents import OUT, STUBS, SYM, _fns
 
-PLANS_Q = ["scan2", "bare", "cleanup", "nested_runs", "staged_monitor", "failpause", "defer_failpause"]
+PLANS_Q = ["scan2", "bare", "cleanup", "nested_runs", "staged_monitor", "failpause", "defer_failpause", "cleared_sleep"]
 PLANS_T = PLANS_Q + ["count2", "flymon", "grid2x2", "fly1", "rel_scan2"]
 register(Harness("c02_sweep", "C02", lambda P: reharness.make_sweep(P, oracles.c02_exit_status, plans=PLANS_Q if P["tier"] == "quick" else PLANS_T),
                  {"quick": dict(shards=16, budget_s=300, per_path_s=30), "thorough": dict(shards=48, budget_s=3000, per_path_s=30)},
